@@ -55,7 +55,9 @@ READY = '.ready'
 FINISH_FLAGS = ('exitinfo', 'aborted', 'oom')
 BOILERPLATE = ('manifest.yml', 'app.json')
 KEYS = ('a', 'b')
-INSTANCE = {'a': 'a.x#0000000001', 'b': 'b.y#0000000002'}
+# b has a hyphen in its app name: appcfg.app_name() must split the unique
+# name at the LAST two hyphens
+INSTANCE = {'a': 'a.x#0000000001', 'b': 'proid.my-app#0000000002'}
 KEY_OF = {v: k for k, v in INSTANCE.items()}
 MAXGEN = 2
 _HERE = os.path.dirname(os.path.abspath(__file__))
@@ -432,7 +434,7 @@ class NodeWorld:
     _SAVED = ('cache', 'bad', 'nextgen', 'cache_ident', 'cname', 'ready',
               'fifo', 'fifo_ages', 'evno', 'late_seen', 'tombs', 'link_seq',
               'link_site', 'viol', 'stats',
-              'crashes')
+              'crashes', 'rep_gens', 'ever', 'last_mgr_actor')
 
     def __init__(self, cfg, token=None):
         """A fresh world, or (token) the world saved by checkpoint()."""
@@ -461,6 +463,9 @@ class NodeWorld:
         self.cache_ident = {}        # path -> (ino, ctime)
         self.cname = {}              # container unique name -> (key, gen)
         self.ready = False
+        self.rep_gens = set()        # (key, gen) written by replace-in-place
+        self.ever = set()            # container names ever seen under apps/
+        self.last_mgr_actor = 'AppCfgMgr.?'
         self.evno = 0
         self.late_seen = False       # a notification was delivered late
         self.fifo = []               # [(kind, basename)] dirwatch queue
@@ -764,6 +769,8 @@ class NodeWorld:
         clauses.  An exception escaping the process is a crash (s6 restarts
         it): recorded, not a verdict."""
         self.actor = actor
+        if actor.startswith('AppCfgMgr'):
+            self.last_mgr_actor = actor
         del self.removals[:]
         ok = True
         try:
@@ -810,6 +817,53 @@ class NodeWorld:
         post = self.snapshot()
         self.check_step(self.prev, post)
         self.prev = post
+        self.ever.update(post.apps)
+
+    # -- oracle: quiescent states -----------------------------------------------
+    def check_quiescent(self):
+        """Nothing in flight (notification FIFO empty, no unprocessed
+        tombstone) and the manager active: the running links follow the cache.
+        Exception (holds on the unchanged tree, reported): an entry rewritten
+        in place by eventmgr produces one 'created' event, which _on_created
+        ignores while the old running link exists; the stale generation then
+        runs until the next synchronisation."""
+        if self.fifo or self.tombs or self.viol or \
+                not self.mgr._is_active:  # pylint: disable=protected-access
+            return
+        post = self.prev
+        self.stats['quiescent_states_checked'] += 1
+        inv = {v: k for k, v in self.cname.items()}
+        in_cleanup = set(post.cleanup.values())
+        for key in KEYS:
+            name = INSTANCE[key]
+            gen = self.cache.get(key)
+            if gen is not None and (key, gen) in self.rep_gens:
+                self.stats['quiescent_rep_exempted'] += 1
+                continue
+            cur = inv.get((key, gen)) if gen is not None else None
+            tgt = post.running.get(name)
+            if tgt is not None and tgt in post.apps and tgt != cur:
+                self.flag('quiescent-running-not-current-cache-entry',
+                          self.site_of('running', name)[1],
+                          {'instance': key, 'running': str(self.cid(tgt)),
+                           'cache_generation': gen,
+                           'last_handler': self.last_mgr_actor,
+                           'state': self.describe(post)})
+                continue
+            if gen is None or self.bad.get((key, gen)) or tgt == cur:
+                continue
+            if cur not in post.apps:
+                if cur in self.ever:
+                    continue            # ran, finished, cleaned up
+                clause = 'quiescent-cached-not-configured'
+            elif post.apps[cur] & set(FINISH_FLAGS) or cur in in_cleanup:
+                continue    # finished, or held by cleanup (other clauses)
+            else:
+                clause = 'quiescent-cached-not-running'
+            self.flag(clause, 'AppCfgMgr.(no handler linked it)',
+                      {'instance': key, 'cache_generation': gen,
+                       'last_handler': self.last_mgr_actor,
+                       'state': self.describe(post)})
 
     def _sync_truth(self):
         """Cache files removed by the manager itself (failed configure) are
@@ -917,6 +971,7 @@ class NodeWorld:
             name = INSTANCE[key]
             path = os.path.join(self.cache_dir, name)
             self.bad[(key, gen)] = False
+            self.rep_gens.add((key, gen))
             tmp = os.path.join(self.cache_dir, '.%s-tmp' % name)
             with io.open(tmp, 'w') as f:
                 json.dump({'task': name.split('#')[1], 'gen': gen,
@@ -993,6 +1048,7 @@ class NodeWorld:
         else:
             raise statex.HarnessError('unknown event %r' % (ev,))
         self.observe()
+        self.check_quiescent()
         self.stats['events'] += 1
 
     def tomb_one(self):
@@ -1070,7 +1126,11 @@ class NodeWorld:
         return (
             tuple((k, self.cache.get(k, 0),
                    self.bad.get((k, self.cache.get(k, 0)), False),
-                   self.nextgen[k]) for k in KEYS),
+                   self.nextgen[k],
+                   # harness truth the quiescence clause depends on
+                   (k, self.cache.get(k, 0)) in self.rep_gens,
+                   any(self.cname.get(c) == (k, self.cache.get(k, 0))
+                       for c in self.ever)) for k in KEYS),
             self.ready,
             tuple(sorted((str(self.cid(c)), tuple(sorted(f)))
                          for c, f in s.apps.items())),
